@@ -66,7 +66,7 @@ def iterOp (st : DriverState) (args : List String) : String :=
         match fuel with
         | 0 => (last, mates)
         | fuel + 1 =>
-          match (alphaBetaSearch g fullExploration .static wf d Score.negInfScore Score.infScore {}).1 with
+          match (alphaBetaSearch g (constEx fullExploration) .static wf d Score.negInfScore Score.infScore {}).1 with
           | none => (last, mates)
           | some sr =>
             let md := sr.score.mateDistance.map Int.toNat
